@@ -347,7 +347,7 @@ def judge(prop, sessions, verdicts, res, known_open):
 
 
 def strip(s, events=False):
-    keys = ("fam", "exact", "descs", "script", "rel") + (("events",) if events else ())
+    keys = ("fam", "exact", "descs", "script", "rel", "eps", "numtypes", "debuglog", "rmulpow") + (("events",) if events else ())
     return {k: s[k] for k in keys if k in s}
 
 
